@@ -295,6 +295,10 @@ func extractZip(zipFile, dest string) error {
 		}
 		defer fs.Close()
 
+		// Archives need not carry an entry for every parent directory.
+		if err := os.MkdirAll(filepath.Dir(path), 0755); err != nil {
+			return err
+		}
 		w, err := os.Create(path)
 		if err != nil {
 			return err
